@@ -116,7 +116,7 @@ pub fn run(args: &Args) {
         }
         let mut grids: Vec<std::collections::BTreeMap<(u32, u32), String>> = vec![Default::default(); nsheets as usize];
         // some exports are far larger than any internal block size (64 KiB and more of multi-byte text)
-        let big = k % 37 == 11;
+        let big = k % 37 == 11 && k < 12_000;
         if big {
             feats.insert("export-larger-than-64KiB".to_string());
         }
